@@ -19,7 +19,15 @@ PROPERTY = {
             "RowWriter::make_cell_writer": "value_count + 1, buffer untouched",
         }),
     ],
-    "kani": [],
+    "timeout": 900,
+    "kani": [Harness(f"c01_{t}", f"C01.native.{t}", "PROVED-C",
+                     f"{t}: all values x all 20 native column types: Ok iff documented pair; bytes == be32(width) ++ big-endian value; mismatch writes nothing; type_check matrix; decode(encode(v)) == v bit for bit; wrong width / null rejected",
+                     crate="scylla-cql-core", functions=[f"scylla-cql-core/src/serialize/value.rs:<{t} as SerializeValue>::serialize", f"scylla-cql-core/src/deserialize/value.rs:<{t} as DeserializeValue>::{{type_check,deserialize}}"])
+             for t in ("i8", "i16", "i32", "i64", "bool", "f32", "f64", "counter", "date", "time", "timestamp")] + [
+        Harness("c01_option_and_unset", "C01.wrappers.option_unset", "PROVED-C", "Option/MaybeUnset/Unset: null = -1, not set = -2, Some(v) = v's cell; read back; mismatch writes nothing", crate="scylla-cql-core",
+                functions=["scylla-cql-core/src/serialize/value.rs:Option<T>/MaybeUnset<T>/Unset serialize"]),
+        Harness("c01_canary_i32_little_endian", "C01.kani.canary", "PROVED-C", "a false claim must be refuted", crate="scylla-cql-core", carries=False, canary=True),
+    ],
     "trusted_base": ["Verus/Z3 soundness", "i32::to_be_bytes (big-endian)", "Vec slicing + copy_from_slice"],
     "assumptions": [],
     "not_covered": ["carriers/containers (pending Kani harnesses)"],
